@@ -6,6 +6,7 @@ import (
 	"encoding/json"
 	"flag"
 	"fmt"
+	"math"
 	"math/rand"
 	"os"
 	"reflect"
@@ -52,10 +53,122 @@ type tpRun struct {
 	progs   map[string]bool
 	samples []string
 	statics map[byte]bool // static variables possibly non-zero
+	sbound  map[byte]float64
+	skipped int
+}
+
+// mayOverflow32 bounds the magnitude of every value the program can compute (both branches of every conditional are
+// walked, so it is an upper bound) and says whether one could leave the 32-bit range.  TLC's integers are 32 bits
+// wide: such a call could not be re-evaluated by the specification, so it is not made at all (static variables
+// stay in step).  Bounds of static variables are kept across calls.
+func (r *tpRun) mayOverflow32(prog string, prm []tpVal) bool {
+	const lim = float64(1 << 30)
+	if r.sbound == nil {
+		r.sbound = map[byte]float64{}
+	}
+	var stk []float64
+	pop := func() float64 {
+		if len(stk) == 0 {
+			return 0
+		}
+		v := stk[len(stk)-1]
+		stk = stk[:len(stk)-1]
+		return v
+	}
+	pb := func(i int) float64 {
+		if i < 0 || i >= len(prm) {
+			return 0
+		}
+		if prm[i].isStr {
+			return float64(len(prm[i].s))
+		}
+		return math.Abs(float64(prm[i].n)) + 1 // %i may add one
+	}
+	dyn := map[byte]float64{}
+	staged := map[byte]float64{}
+	big := false
+	push := func(v float64) {
+		if v >= lim {
+			big = true
+		}
+		stk = append(stk, v)
+	}
+	for i := 0; i < len(prog); i++ {
+		if prog[i] != '%' || i+1 >= len(prog) {
+			continue
+		}
+		i++
+		switch c := prog[i]; {
+		case c == 'p' && i+1 < len(prog):
+			i++
+			push(pb(int(prog[i] - '1')))
+		case c == '{':
+			n := 0.0
+			for i++; i < len(prog) && prog[i] != '}'; i++ {
+				if prog[i] >= '0' && prog[i] <= '9' {
+					n = n*10 + float64(prog[i]-'0')
+				}
+			}
+			push(n)
+		case c == '\'':
+			i += 2
+			push(255)
+		case c == '+' || c == '-':
+			push(pop() + pop())
+		case c == '*':
+			push(pop() * pop())
+		case c == '/' || c == 'm':
+			b, a := pop(), pop()
+			_ = b
+			push(a)
+		case c == '&' || c == '|' || c == '^':
+			a, b := pop(), pop()
+			push(2*math.Max(a, b) + 1)
+		case c == '~':
+			push(pop() + 1)
+		case c == '!' || c == '=' || c == '<' || c == '>' || c == 'A' || c == 'O':
+			if c != '!' {
+				pop()
+			}
+			pop()
+			push(1)
+		case c == 'l':
+			pop()
+			push(64)
+		case c == 'P' && i+1 < len(prog):
+			i++
+			v := pop()
+			if prog[i] >= 'A' && prog[i] <= 'Z' {
+				staged[prog[i]] = math.Max(math.Max(staged[prog[i]], r.sbound[prog[i]]), v)
+			} else {
+				dyn[prog[i]] = math.Max(dyn[prog[i]], v)
+			}
+		case c == 'g' && i+1 < len(prog):
+			i++
+			if prog[i] >= 'A' && prog[i] <= 'Z' {
+				push(math.Max(staged[prog[i]], r.sbound[prog[i]]))
+			} else {
+				push(dyn[prog[i]])
+			}
+		case c == 'd' || c == 'c' || c == 's' || c == 'x' || c == 'X' || c == 'o' || c == 't':
+			pop()
+		}
+	}
+	if big {
+		return true
+	}
+	for k, v := range staged {
+		r.sbound[k] = v
+	}
+	return false
 }
 
 // call evaluates prog with the real TParm under a watchdog and logs it.
 func (r *tpRun) call(kind, prog string, wf bool, prm []tpVal) {
+	if wf && r.mayOverflow32(prog, prm) {
+		r.skipped++
+		return
+	}
 	args := make([]interface{}, len(prm))
 	pj := make([]interface{}, len(prm))
 	for i, p := range prm {
@@ -107,6 +220,7 @@ func (r *tpRun) reset() {
 		r.call("reset", fmt.Sprintf("%%{0}%%P%c", byte(k)), true, nil)
 	}
 	r.statics = map[byte]bool{}
+	r.sbound = map[byte]float64{}
 	r.tw.Emit(trace.Ev{"ev": "Reset"})
 }
 
